@@ -309,7 +309,16 @@ func (p *parser) typeName() string {
 		p.expect("]")
 		return s + "[]" + p.typeName()
 	}
-	s += p.ident()
+	id := p.ident()
+	if (id == "$dom" || id == "$val" || id == "map") && p.accept("[") {
+		k := p.typeName()
+		p.expect("]")
+		if id == "$dom" {
+			return s + "$dom[" + k + "]"
+		}
+		return s + id + "[" + k + "]" + p.typeName()
+	}
+	s += id
 	if p.accept(".") {
 		s += "." + p.ident()
 	}
@@ -567,6 +576,7 @@ type AtAssert struct {
 }
 
 type SpecFunc struct {
+	Macro   bool
 	Name    string
 	Params  []QVar
 	Result  string
@@ -603,7 +613,7 @@ type ContractFile struct {
 var reFuncHdr = regexp.MustCompile(`^(func|iface|extern)\s+(\S+)(.*)$`)
 var reLoop = regexp.MustCompile(`^loop\s+(\d+)\s*:\s*(invariant|decreases)\s+(.*)$`)
 var reCalls = regexp.MustCompile(`^calls\s+(\S+?)#(\d+|\*)\s*:\s*(requires|ensures|set|pure)\b\s*(.*)$`)
-var reSpecFunc = regexp.MustCompile(`^spec\s+func\s+(\w+)\s*\(([^)]*)\)\s*([\w.\[\]*]+)\s*(?:=\s*(.*))?$`)
+var reSpecFunc = regexp.MustCompile(`^spec\s+(?:func|macro)\s+(\w+)\s*\(([^)]*)\)\s*([\w.\[\]*$]+)\s*(?:=\s*(.*))?$`)
 var reGhost = regexp.MustCompile(`^ghost\s+(\w+)\s+([\w.\[\]*]+)\s*=\s*(.*)$`)
 var reSet = regexp.MustCompile(`^(\w+)\s*=\s*(.*)$`)
 
@@ -793,7 +803,7 @@ func ParseContractFile(path string) (*ContractFile, error) {
 			}
 		case reSpecFunc.MatchString(body):
 			m := reSpecFunc.FindStringSubmatch(body)
-			sf := &SpecFunc{Name: m[1], Result: m[3], Src: body, File: path, Line: rc.line}
+			sf := &SpecFunc{Name: m[1], Result: m[3], Src: body, File: path, Line: rc.line, Macro: strings.HasPrefix(body, "spec macro")}
 			if strings.TrimSpace(m[2]) != "" {
 				// params: "a, b int, c string"
 				var pending []string
@@ -813,7 +823,12 @@ func ParseContractFile(path string) (*ContractFile, error) {
 					}
 				}
 				if len(pending) > 0 {
-					return nil, fmt.Errorf("%s:%d: spec func param without type", path, rc.line)
+					if !sf.Macro {
+						return nil, fmt.Errorf("%s:%d: spec func param without type", path, rc.line)
+					}
+					for _, n := range pending {
+						sf.Params = append(sf.Params, QVar{n, ""})
+					}
 				}
 			}
 			if m[4] != "" {
